@@ -64,7 +64,8 @@ func checkC16(c *core.Ctx) error {
 		}
 		checkEstimator(c, p, d, e)
 	}
-	c.Analysed["closed_form_estimators"] = len(estTable)
+	checkCategoricalEstimator(c, p, d)
+	c.Analysed["closed_form_estimators"] = len(estTable) + 1
 	// ---- R3 the mixture EM step is the textbook E-step / M-step
 	c.Rule("C16.R3", "the mixture EM step, interpreted symbolically for two components: the returned likelihood is the data log-likelihood of the model of the iteration, the responsibilities are the component posteriors (times observation weight and multiplicity), the new weights are the normalised responsibility sums", 20)
 	checkEmStep(c, false)
@@ -577,4 +578,121 @@ func sortStringsC16(s []string) {
 			s[j], s[j-1] = s[j-1], s[j]
 		}
 	}
+}
+
+// checkCategoricalEstimator (C16.R1c): the categorical estimator on three categories and four weighted observations
+// (categories 0, 1, 2, 0; log-weights g_0..g_3) returns the weighted relative frequencies, the constrained maximiser of
+// the weighted log-likelihood sum_l e^{g_l} log theta_{x_l} on the simplex.
+func checkCategoricalEstimator(c *core.Ctx, p *packages.Package, d *declIndex) {
+	c.Rule("C16.R1c", "the categorical estimator returns the weighted relative frequencies of the categories (three categories, four weighted observations, symbolic weights)", 3)
+	cons := "statistics/scalarEstimator.CategoricalEstimator"
+	ctor := findFuncDecl(p, "NewCategoricalEstimator")
+	if ctor == nil {
+		c.Unknown("C16.R1c", cons, "constructor found", 0, "NewCategoricalEstimator not found")
+		return
+	}
+	start := &vn.SliceVal{Len: sym.Int(3), Cells: map[string]*sym.Term{"0": sym.Sym("s_0"), "1": sym.Sym("s_1"), "2": sym.Sym("s_2")}}
+	cfg := vn.Config{Pkg: p, TypeName: "Real64", Spec: distSpec, InlineOps: inlineOps, Decl: d.find, ParamNames: true, MaxDepth: 6, UnrollConst: true, FiniteSyms: true,
+		ParamValues: map[string]vn.Value{"theta": start}}
+	paths, und := vn.Run(cfg, ctor)
+	if und != nil {
+		c.Unknown("C16.R1c", cons, "constructor interpreted", und.Pos, "constructor left the interpreter's idiom set: "+und.Msg)
+		return
+	}
+	var obj *vn.StructVal
+	for _, pa := range paths {
+		if t, ok := pa.Ret.(vn.Tuple); ok && len(t) == 2 {
+			if o, isObj := t[0].(*vn.StructVal); isObj {
+				if _, isErr := t[1].(*vn.ErrVal); !isErr && obj == nil {
+					obj = o
+				}
+			}
+		}
+	}
+	if obj == nil {
+		c.Unknown("C16.R1c", cons, "constructor has a success path", ctor.Pos(), "no success path")
+		return
+	}
+	run := func(name string, params map[string]vn.Value) string {
+		fd := findMethodDecl(p, "CategoricalEstimator", name)
+		if fd == nil {
+			return "method " + name + " not found"
+		}
+		cfg := vn.Config{Pkg: p, TypeName: "Real64", Spec: distSpec, InlineOps: inlineOps, Decl: d.find, ParamNames: true, MaxDepth: 6, UnrollConst: true, FiniteSyms: true,
+			RecvStruct: obj, ParamValues: params}
+		ps, und := vn.Run(cfg, fd)
+		if und != nil {
+			return name + " left the interpreter's idiom set: " + und.Msg
+		}
+		// in-place: the receiver is shared between the paths, so exactly one non-error path is required
+		n := 0
+		for _, pa := range ps {
+			if _, isErr := pa.Ret.(*vn.ErrVal); !isErr && !pa.Panic {
+				n++
+			}
+		}
+		if len(ps) != 1 || n != 1 {
+			return fmt.Sprintf("%s has %d paths (%d successful) on a determined input", name, len(ps), n)
+		}
+		return ""
+	}
+	pool := &vn.OpaqueVal{What: "pool"}
+	if msg := run("Initialize", map[string]vn.Value{"p": pool}); msg != "" {
+		c.Unknown("C16.R1c", cons, "Initialize interpreted", ctor.Pos(), msg)
+		return
+	}
+	cats := []int{0, 1, 2, 0}
+	for l, k := range cats {
+		x := &vn.Loc{Name: "x", Val: sym.Int(int64(k)), Consistent: true, Const: true}
+		g := &vn.Loc{Name: "gamma", Val: symf("g_%d", l), Consistent: true}
+		if msg := run("NewObservation", map[string]vn.Value{"x": x, "gamma": g, "p": pool}); msg != "" {
+			c.Unknown("C16.R1c", cons, "NewObservation interpreted", ctor.Pos(), msg)
+			return
+		}
+	}
+	ue := findMethodDecl(p, "CategoricalEstimator", "updateEstimate")
+	if ue == nil {
+		c.Unknown("C16.R1c", cons, "updateEstimate found", ctor.Pos(), "not found")
+		return
+	}
+	cfg2 := vn.Config{Pkg: p, TypeName: "Real64", Spec: distSpec, InlineOps: inlineOps, Decl: d.find, ParamNames: true, MaxDepth: 6, UnrollConst: true, FiniteSyms: true,
+		RecvStruct: obj, RecvFresh: true}
+	ups, und := vn.Run(cfg2, ue)
+	if und != nil {
+		c.Unknown("C16.R1c", cons, "updateEstimate interpreted", und.Pos, "updateEstimate left the interpreter's idiom set: "+und.Msg)
+		return
+	}
+	W := []*sym.Term{sym.Zero(), sym.Zero(), sym.Zero()}
+	tot := sym.Zero()
+	for l, k := range cats {
+		e := sym.Fn("exp", symf("g_%d", l))
+		W[k] = sym.Add(W[k], e)
+		tot = sym.Add(tot, e)
+	}
+	nGood := 0
+	for _, pa := range ups {
+		if pa.Panic || pa.RecvObj == nil {
+			continue
+		}
+		if _, isErr := pa.Ret.(*vn.ErrVal); isErr {
+			continue
+		}
+		dobj, ok := pa.RecvObj.Fields["CategoricalDistribution"].(*vn.StructVal)
+		if !ok {
+			continue
+		}
+		th, ok := dobj.Fields["Theta"].(*vn.LocalVec)
+		if !ok {
+			continue
+		}
+		nGood++
+		for k := 0; k < 3; k++ {
+			got := th.Cell(k)
+			want := sym.Div(W[k], tot)
+			okk := got != nil && sym.Equal(sym.Fn("exp", got), want)
+			c.Check(okk, "C16.R1c", cons, fmt.Sprintf("estimated probability of category %d is its weighted relative frequency [%s]", k, shortConds(pa.CondString())), ue.Pos(),
+				fmt.Sprintf("the estimated log-probability of category %d is %s; the weighted maximum-likelihood estimate is the logarithm of %s", k, shortTerm(got), want))
+		}
+	}
+	c.Check(nGood > 0, "C16.R1c", cons, "updateEstimate has a successful path", ue.Pos(), "no successful path")
 }
